@@ -33,7 +33,7 @@ structure MatBox (m n : ℕ) (K : Type) where
   M : Mat m n K
 
 /-- Tabulate a matrix into arrays (each entry computed exactly once) and return it as a value. -/
-def boxForce {K : Type} {m n : ℕ} (M : Mat m n K) : MatBox m n K :=
+@[noinline] def boxForce {K : Type} {m n : ℕ} (M : Mat m n K) : MatBox m n K :=
   let tbl : Array (Array K) := Array.ofFn fun i : Fin m => Array.ofFn fun j : Fin n => M i j
   ⟨Matrix.of fun i j =>
     if h : i.val < tbl.size then
@@ -262,7 +262,7 @@ def lrInvRight {n k : ℕ} (kind : LRKind) (V TU : MExpr K k n) (Si : MExpr K n 
 def bdSmulKind (sg : Sgn) : BDKind → BDKind
   | .square => .square
   | .symmetric => .symmetric
-  | .posdef => if sg.isPos then .posdef else .square
+  | .posdef => if sg.isPos then .posdef else .symmetric
 
 /-- Class of a scalar multiple of a low-rank update. -/
 def lrSmulKind (sg : Sgn) : LRKind → LRKind
